@@ -599,6 +599,16 @@ func genHistory(seed int64, idx int, thorough bool) *History {
 				parent = i
 			}
 		}
+		if late >= 0 && kid < 0 && parent >= 0 && len(freeKids) == 0 {
+			// no unregistered child left: a loose or an inactive one is connected instead (the
+			// same operation the weighted draw uses), so that the tail never depends on the seed
+			for i := range h.Agents {
+				a := &h.Agents[i]
+				if m := sim.Agents[a.Name()]; m != nil && a.Smb && (!m.Active || sim.parentOf(a.Name()) == "") {
+					freeKids = append(freeKids, i)
+				}
+			}
+		}
 		if late >= 0 && kid < 0 && parent >= 0 && len(freeKids) > 0 {
 			kid = freeKids[0]
 			add(Op{K: "connect", A: parent, B: kid, Via: -1})
@@ -641,6 +651,37 @@ func genHistory(seed int64, idx int, thorough bool) *History {
 			}
 			if parent >= 0 {
 				add(Op{K: "connect", A: parent, B: kid, Via: -1})
+			}
+		}
+		if parent < 0 && len(direct) > 0 {
+			// still nobody with exactly one child: a childless direct agent takes over a child
+			// of a sibling; if every direct agent has several, one of them loses all but one
+			var linked []int
+			for i := range h.Agents {
+				a := &h.Agents[i]
+				if m := sim.Agents[a.Name()]; m != nil && m.Active && a.Smb && sim.parentOf(a.Name()) != "" {
+					linked = append(linked, i)
+				}
+			}
+			for _, d := range direct {
+				if len(sim.kidsOf(h.Agents[d].Name())) == 0 && len(linked) > 0 {
+					parent = d
+					add(Op{K: "connect", A: parent, B: linked[0], Via: -1})
+					break
+				}
+			}
+			if parent < 0 {
+				for _, d := range direct {
+					if len(sim.kidsOf(h.Agents[d].Name())) > 1 {
+						parent = d
+						for _, c := range linked {
+							if len(sim.kidsOf(h.Agents[d].Name())) > 1 && sim.parentOf(h.Agents[c].Name()) == h.Agents[d].Name() {
+								add(Op{K: "disconnect", A: d, B: c, Via: -1})
+							}
+						}
+						break
+					}
+				}
 			}
 		}
 		if parent >= 0 && len(sim.kidsOf(h.Agents[parent].Name())) == 1 {
